@@ -85,5 +85,13 @@ func GenGenericModule(r *core.Rng, size int) *Stmt {
 			m.Add(gen(1))
 		}
 	}
+	// rpcs with and without the statements they may leave out: what is not written is not in the tree
+	if r.Chance(1, 3) {
+		m.Add(S("rpc", "r-bare"),
+			S("rpc", "r-in", &Stmt{Kw: "input", Block: true, Kids: []*Stmt{S("leaf", "x", S("type", "string"))}}),
+			S("rpc", "r-out", S("description", core.Pick(r, argPool)), &Stmt{Kw: "output", Block: true, Kids: []*Stmt{S("leaf", "y", S("type", "string"))}}),
+			S("rpc", "r-both", &Stmt{Kw: "input", Block: true, Kids: []*Stmt{S("leaf", "x", S("type", "string"))}}, &Stmt{Kw: "output", Block: true, Kids: []*Stmt{S("leaf", "y", S("type", "string"))}}),
+			S("notification", "n-bare"))
+	}
 	return m
 }
